@@ -157,7 +157,7 @@ var def = pbt.Def[duo.Case]{Name: "concurrent-vs-alone", Gen: gen, Run: judge}
 
 func TestProp(t *testing.T) {
 	outerT = t
-	pbt.Check(t, run, def, 4000, 300000)
+	pbt.Check(t, run, def, 4000, 150000)
 }
 
 func TestReplay(t *testing.T) {
